@@ -11,14 +11,14 @@ From Coq Require Import Lia ZifyBool.
 From RecordUpdate Require Import RecordUpdate.
 From Model Require Import Base SeqNum Wire Conn RecvHist Net Net2 Net3.
 From Proofs Require Import Tac SeqNumP WireP ConnFrameP NonceP PackP ClearP AckP CallbackP CustodyP QueueP NetP
-  AckNamesP AckNetP RecvP RecvHistP C04P MsgRecvP MsgSendP.
+  AckNamesP AckNetP RecvP RecvHistP C04P MsgRecvP MsgSendP MsgFragP.
 Import RecordSetNotations.
 Open Scope Z_scope.
 Ltac Zify.zify_post_hook ::= Z.to_euclidean_division_equations.
 
 (* ---------- the predicate on queued messages: a user callback travels with what was passed to send() ---------- *)
 Definition ucb_ok (S : list (list byte * Z)) (i : icb) (ty : ptype) (p : list byte) : Prop :=
-  match i with IUser id => ty = APP /\ In (p, id) S | IFrag _ _ => False | _ => True end.
+  match i with IUser id => ty = APP /\ In (p, id) S | IFrag _ _ => ty = APP_FRAGMENT | _ => True end.
 
 Definition QkS (S : list (list byte * Z)) (k : cb) : Prop :=
   match k with Plain _ => True | Retry _ _ ty p i => ty <> UNKNOWN /\ ucb_ok S i ty p end.
@@ -49,6 +49,9 @@ Proof. intros [A B]. split; cbn; auto. Qed.
 
 Lemma QS_sys S c ty p k : ty <> UNKNOWN -> sys_icb k -> QmS S (new_msg c ty p RNone k).
 Proof. intros Ht Hk. split; [exact Ht|]. destruct k; try destruct Hk; cbn; exact I. Qed.
+
+Lemma QS_frag S c fid idx p r : QmS S (new_msg c APP_FRAGMENT p r (IFrag fid idx)).
+Proof. split; [discriminate|]. unfold new_msg, mk_cb. cbn [m_cb m_seq m_type m_payload]. destruct r; cbn; repeat split; auto; discriminate. Qed.
 
 Lemma QS_nu S m : QmS S m -> m_type m <> UNKNOWN.
 Proof. intros [H _]. exact H. Qed.
@@ -83,7 +86,7 @@ Proof.
   destruct r; destruct k; try destruct Hk; cbn; auto; repeat split; auto; discriminate.
 Qed.
 
-Definition step_linkS S := step_link (QmS S) (QkS S) (QS_stamp S) (QS_cb S) (QS_requeue S) (QS_nu S) (QkS_nu S) (QS_sys S).
+Definition step_linkS S := step_link (QmS S) (QkS S) (QS_stamp S) (QS_cb S) (QS_requeue S) (QS_nu S) (QkS_nu S) (QS_sys S) (QS_frag S).
 
 (* ---------- the sender's invariant over the joint ghost ---------- *)
 (* for every datagram on the wire whose index is recent, the callbacks registered for its sequence
@@ -113,7 +116,7 @@ Proof.
     assert (Hmono : forall y, In y (m_sent M) -> In y S') by (intros; apply in_or_app; right; assumption).
     pose proof (MI_mono _ _ _ Hmono HN) as HN'.
     assert (Hnew : ev_new (QmS S') e (nA (g_net (m_g M))) x).
-    { destruct x; try exact I. destruct Hwf as [Hl Hk]. split; [exact Hl|]. apply QS_send; [exact Hk|].
+    { destruct x; try exact I. intros Hl. apply QS_send; [exact Hwf|].
       intros id ->. subst S'. cbn. left. reflexivity. }
     unfold mstep, CInv. cbn [fst snd gstep m_g m_sent m_st].
     destruct (step e (nA (g_net (m_g M))) x) as [a' o] eqn:E.
@@ -302,26 +305,53 @@ Proof.
   unfold client_update. destruct (_ && (now >? _)); destruct (_ && (_ >? c_temp_timeout _)); reflexivity.
 Qed.
 
+(* ---------- fragment-sender contexts come from oversized sends ---------- *)
+Definition PFInv (e : env) (M : mnet) : Prop := forall id, FU (nA (g_net (m_g M))) id -> big_id e (m_sent M) id.
+
+Lemma PFInv_mnet0 e : PFInv e mnet0.
+Proof. intros id (fid & fs & H & _). discriminate H. Qed.
+
+Lemma big_id_mono e S S' id : (forall y, In y S -> In y S') -> big_id e S id -> big_id e S' id.
+Proof. intros H (p & A & B). exists p. auto. Qed.
+
+Theorem PFInv_step e M vj : PFInv e M -> PFInv e (mstep e M vj).
+Proof.
+  intros HP. destruct vj as [[v l] js]. destruct v as [x|x]; unfold mstep, PFInv; cbn [fst snd gstep m_g m_sent m_st].
+  - destruct (step e (nA (g_net (m_g M))) x) as [a' o] eqn:E. cbn [m_g m_sent g_net nstep]. rewrite ?E. cbn [nA].
+    intros id H. destruct (step_FU _ _ _ _ _ E id H) as [H0|(p & r & -> & Hl)].
+    + eapply big_id_mono; [|exact (HP id H0)]. intros y Hy. apply in_or_app. right. exact Hy.
+    + exists p. split; [cbn; left; reflexivity|exact Hl].
+  - destruct (step e (nB (g_net (m_g M))) x) as [b' o] eqn:E. cbn [m_g m_sent g_net nstep]. rewrite ?E. cbn [nA]. exact HP.
+Qed.
+
+Theorem PFInv_run e vs : forall M, PFInv e M -> PFInv e (mrun e M vs).
+Proof.
+  induction vs as [|v r IH]; intros M H; cbn [mrun fold_left]; [exact H|]. apply IH. apply PFInv_step. exact H.
+Qed.
+
 (* ---------- the theorem, one step of A ---------- *)
-Theorem success_delivered_step e S K M x l js a' o id :
-  J3 S K M -> wf3_ev e M ((NA x, l), js) ->
-  step e (nA (g_net (m_g M))) x = (a', o) -> In (OCallback id true) o ->
+Definition delivered_as (M : mnet) (id : Z) : Prop :=
   exists p i dA w,
     In (p, id) (m_sent M) /\ In p (dlvB (g_net (m_g M))) /\
     In (i, dA) (g_AB (m_g M)) /\ In dA (wAB (g_net (m_g M))) /\ In dA (g_accB (m_g M)) /\
     In w (dg_msgs dA) /\ w_type w = APP /\ w_payload w = p.
+
+Theorem success_delivered_step e S K M x l js a' o id :
+  J3 S K M -> PFInv e M -> wf3_ev e M ((NA x, l), js) ->
+  step e (nA (g_net (m_g M))) x = (a', o) -> In (OCallback id true) o ->
+  big_id e (m_sent M) id \/ delivered_as M id.
 Proof.
-  intros [HJ HI [_ _ HC] [_ _ _ Hacc]] [Hwf2 _] E Hin. cbn [fst] in Hwf2.
-  destruct (step_true_for _ _ _ _ _ _ HI E Hin) as (a0 & d & Hpre & Hop & s & t & ks & k & Hpend & Hack & Hg & Hk & Hf).
+  intros [HJ HI [_ _ HC] [_ _ _ Hacc]] HPF [Hwf2 _] E Hin. cbn [fst] in Hwf2.
+  destruct (step_true_src _ _ _ _ _ _ HI E Hin) as (a0 & d & Hpre & Hop & [(s & t & ks & k & Hpend & Hack & Hg & Hk & Hf)|HF]);
+    [right|left; exact (HPF id HF)].
   destruct (acked_recent _ _ _ _ _ _ _ HJ Hwf2 Hpre Hop s t Hpend Hack) as (i & dA & Hs & Hi & Hrec & HAB & HW & HaccB).
   rewrite (pre_recv_pcbs _ _ _ _ Hpre), Hs in Hg.
   destruct (HC i dA ks k HAB Hrec Hg Hk) as (m & [Hty Hq] & Hcb & Hm).
   rewrite Hcb in Hq.
   assert (Hu : m_type m = APP /\ In (m_payload m, id) (m_sent M)).
-  { unfold cb_for in Hf. destruct k as [i0|rid mseq ty p0 i0]; cbn [cb_inner] in Hf.
-    - destruct Hf as [->|(fid & idx & ->)]; cbn in Hq; [exact Hq|destruct Hq].
-    - destruct Hq as (_ & Q2 & Q3 & _ & Q5). rewrite Q2, Q3.
-      destruct Hf as [->|(fid & idx & ->)]; cbn in Q5; [exact Q5|destruct Q5]. }
+  { destruct k as [i0|rid mseq ty p0 i0]; cbn [cb_inner] in Hf; subst i0.
+    - cbn in Hq. exact Hq.
+    - destruct Hq as (_ & Q2 & Q3 & _ & Q5). rewrite Q2, Q3. cbn in Q5. exact Q5. }
   destruct Hu as [Hu1 Hu2].
   exists (m_payload m), i, dA, (wmsg_of m). repeat split; auto.
   exact (Hacc dA (wmsg_of m) HaccB Hm Hu1).
@@ -329,16 +359,13 @@ Qed.
 
 (* ---------- the theorems over joint histories ---------- *)
 Theorem success_means_delivered e S K M vs x l js a' o id :
-  0 <= e_max_payload e -> J3 S K M -> wf3_run e M (vs ++ [((NA x, l), js)]) ->
+  0 <= e_max_payload e -> J3 S K M -> PFInv e M -> wf3_run e M (vs ++ [((NA x, l), js)]) ->
   let M' := mrun e M vs in
   step e (nA (g_net (m_g M'))) x = (a', o) -> In (OCallback id true) o ->
-  exists p i dA w,
-    In (p, id) (m_sent M') /\ In p (dlvB (g_net (m_g M'))) /\
-    In (i, dA) (g_AB (m_g M')) /\ In dA (wAB (g_net (m_g M'))) /\ In dA (g_accB (m_g M')) /\
-    In w (dg_msgs dA) /\ w_type w = APP /\ w_payload w = p.
+  big_id e (m_sent M') id \/ delivered_as M' id.
 Proof.
-  intros He HJ Hwf M' E Hin. apply wf3_run_app in Hwf as [W1 [W2 _]].
-  eapply success_delivered_step; [eapply J3_run; eassumption|exact W2|exact E|exact Hin].
+  intros He HJ HPF Hwf M' E Hin. apply wf3_run_app in Hwf as [W1 [W2 _]].
+  eapply success_delivered_step; [eapply J3_run; eassumption|apply PFInv_run; exact HPF|exact W2|exact E|exact Hin].
 Qed.
 
 Lemma NoDup_snd_inj {A} (l : list (A * Z)) a b id : NoDup (map snd l) -> In (a, id) l -> In (b, id) l -> a = b.
@@ -351,15 +378,18 @@ Proof.
   - exact (IH Hnd' Ha Hb).
 Qed.
 
-(* callback ids not reused: THE payload passed with id has been handed to B's application *)
+(* callback ids not reused: THE payload passed with id in an unfragmented send has been handed to B's
+   application *)
 Theorem success_means_delivered_unique e S K M vs x l js a' o id p :
-  0 <= e_max_payload e -> J3 S K M -> wf3_run e M (vs ++ [((NA x, l), js)]) ->
+  0 <= e_max_payload e -> J3 S K M -> PFInv e M -> wf3_run e M (vs ++ [((NA x, l), js)]) ->
   let M' := mrun e M vs in
-  NoDup (map snd (m_sent M')) -> In (p, id) (m_sent M') ->
+  NoDup (map snd (m_sent M')) -> In (p, id) (m_sent M') -> len p <= e_max_payload e ->
   step e (nA (g_net (m_g M'))) x = (a', o) -> In (OCallback id true) o ->
   In p (dlvB (g_net (m_g M'))).
 Proof.
-  intros He HJ Hwf M' Hnd Hp E Hin.
-  destruct (success_means_delivered e S K M vs x l js a' o id He HJ Hwf E Hin) as (p0 & _ & _ & _ & H1 & H2 & _).
-  fold M' in H1, H2. rewrite (NoDup_snd_inj _ _ _ _ Hnd Hp H1). exact H2.
+  intros He HJ HPF Hwf M' Hnd Hp Hl E Hin.
+  destruct (success_means_delivered e S K M vs x l js a' o id He HJ HPF Hwf E Hin) as [(p0 & H1 & H2)|(p0 & _ & _ & _ & H1 & H2 & _)];
+    fold M' in H1, H2.
+  - exfalso. rewrite (NoDup_snd_inj _ _ _ _ Hnd Hp H1) in Hl. lia.
+  - rewrite (NoDup_snd_inj _ _ _ _ Hnd Hp H1). exact H2.
 Qed.
